@@ -510,6 +510,34 @@ pub fn drive(a: &Args) {
             mo.emit(mergelist_record(&rev));
         }
     }
+    // look-alike neighbours in a list: partitions that agree on every cheap summary (number of intervals, first and
+    // last interval, complement witness, total size) and differ only in the interior; in every order, with repeats
+    for k in 3..=6u32 {
+        let p: Vec<Iv> = (0..k).map(|i| (10 * i, 10 * i + 1)).collect();
+        let mut variants: Vec<Vec<Iv>> = vec![];
+        for m in 1..k - 1 {
+            let mut q = p.clone();
+            q[m as usize] = (10 * m + 3, 10 * m + 4); // moved, same size
+            variants.push(q);
+            let mut q = p.clone();
+            q[m as usize] = (10 * m + 1, 10 * m + 2); // shifted by one (now adjacent to nothing new, overlaps the old one)
+            variants.push(q);
+            let mut q = p.clone();
+            q[m as usize] = (10 * m - 2, 10 * m + 5); // wider
+            variants.push(q);
+        }
+        for q in &variants {
+            mo.emit(mergelist_record(&[p.clone(), q.clone()]));
+            mo.emit(mergelist_record(&[q.clone(), p.clone()]));
+            mo.emit(mergelist_record(&[p.clone(), q.clone(), p.clone()]));
+            mo.emit(mergelist_record(&[p.clone(), p.clone(), q.clone()]));
+            mo.emit(mergelist_record(&[vec![(5, 5)], p.clone(), q.clone()]));
+            mo.emit(merge_record(&p, q));
+        }
+        if variants.len() >= 2 {
+            mo.emit(mergelist_record(&[variants[0].clone(), variants[1].clone(), p.clone()]));
+        }
+    }
     // full-alphabet scans of class_of_char: run-length encoded answers for a sample of partitions
     let nscan = a.sz(6, 200);
     let mut so = Out::create(&a.out, "part_scans.ndjson");
